@@ -107,6 +107,10 @@ def obligations(tier, ctx):
     for form in (0, 1):
         obs.append(Ob(name=f"bounded_f{form}", params=[("k", "int"), ("cap", "int"), ("idsel", "int")], pre=[f"0 <= k < {nb}", "1 <= cap <= 3", "0 <= idsel <= 2"] + (["idsel == 1"] if tier == "quick" else []),
                       call=f"H.posts_bounded(k, cap, idsel, {form})", backend="P", timeout=900, family="(d) back-pressure: read stream of symbolic capacity 1..3 and a late reader, 0..12 earlier requests"))
+    from harness_sizes_n import N_TEXTS
+    for form in range(3):
+        obs.append(Ob(name=f"text_f{form}", params=[("i", "int"), ("idsel", "int")], pre=[f"0 <= i < {N_TEXTS}", "0 <= idsel <= 2"] + (["idsel == 0"] if tier == "quick" else []),
+                      call=f"H.post_text(i, {form}, idsel)", backend="P", timeout=600, family="(d) content corpus: answers carrying 'active' text raw"))
     from symcheck.runner import mirror
     obs += mirror(obs, r"^(post_body(0|1|7|9|11|12)|post_sse(0|3|7)|post_exc1|seq0|session_body0)$", "F", limit=(4 if tier == "quick" else None))
     return obs
